@@ -26,12 +26,14 @@ OPS = {
     "util": ["util.py"], "vocab": ["_construct_dictionary", "__init__", "get_velocity_bins"],
     "tok_roundtrip": ["notelike_tokenisation.py", "bin_velocity", "set_channel", "merge", "get_interleaved_message_pairings"],
     "tok_stateful": ["tokenise", "sequences_split_bars", "to_sequence", "concatenate"],
+    "comp_file": ["composition.py", "track.py", "bar.py", "sequences_split_bars", "sequences_load", "midi_file.py", "quantise_and_normalise"],
     "concat_repeat": ["concatenate", "normalise_relative", "RelativeSequence.pad", "RelativeSequence.split", "set_channel", "message.py"],
     "scale_down": ["RelativeSequence.scale", "Sequence.scale", "sequences_split_bars", "bar.py", "RelativeSequence.split", "normalise_relative"],
     "tok_stream": ["detokenise", "get_info", "_split_token"], "history": ["sequence.py", "relative_sequence.py", "absolute_sequence.py", "bar.py", "message.py", "abstract_sequence.py"],
     "midi_events": ["to_midi_track", "to_mido_track", "parse_internal_message"],
     "midi_load": ["midi_file.py", "midi_message.py", "midi_track.py", "sequences_load"],
     "midi_roundtrip": ["midi_file.py", "midi_message.py", "midi_track.py", "sequences_save", "sequences_load", "to_midi_track"],
+    "midi_roundtrip_mi": ["midi_file.py", "midi_message.py", "midi_track.py", "sequences_save", "sequences_load", "to_midi_track"],
     "music_theory": ["music_theory.py"],
     "getters": ["is_empty", "is_channel_consistent", "get_sequence_channel", "get_sequence_duration", "get_key_signature_guess", "get_message_times_of_type"],
     "digitise": ["digitise_velocity", "velocity_from_bin", "bin_velocity", "get_velocity_bins"],
